@@ -1,5 +1,6 @@
 ------------------------------ MODULE ReaderObs ------------------------------
 (* lines: [t |-> "files", files, names, use (Reader.tla: where the context variables are consulted), out, endnr (text of NR printed by the end block), exit]                         *)
+(*        [t |-> "concat", out (the files read together), alone (sequence: each file read alone), exit]                          *)
 (*        [t |-> "dslchain", s, out, piped, exit]: put/filter stages, each with its own functions, variables and begin/end blocks   *)
 (*        [t |-> "chain", cs, s, out (the then-chain's output), piped (the output of the same verbs connected by pipes), exit] *)
 EXTENDS Reader, Json
@@ -24,6 +25,8 @@ Why(o) ==
   ELSE IF o.t = "blocks" THEN          \* files of several header blocks (CSV-lite, PPRINT)
        (IF o.out # AnnotatedB(o.files, o.names) THEN "records or NR/FNR/FILENAME/FILENUM/NF wrong"
         ELSE IF o.endnr # ToString(BFinalNR(o.files)) THEN "end block does not see the final NR" ELSE "ok")
+  ELSE IF o.t = "concat" THEN          \* files in unusual byte spellings: together = the concatenation of each alone
+       (IF o.out # ConcatOf(o.alone, 1, 0) THEN "files read together differ from the concatenation of each read alone" ELSE "ok")
   ELSE IF o.t = "dslchain" THEN        \* put/filter verbs with programs of their own: the law itself, then = pipe
        (IF o.piped # o.out THEN "then-chain differs from the piped verbs" ELSE "ok")
   ELSE IF ~ChainOK(o.cs) THEN "ok"      \* outside the composable space (sampled by the harness): not judged
